@@ -430,6 +430,11 @@ func runSST(args []string) error {
 				it, err2 := rd.ScanRange(keys[r[0]], keys[r[1]])
 				emitScan(M{"t": "scanrange", "lo": r[0], "hi": r[1]}, it, err2)
 			}
+			if ci%7 == 3 && ri == 0 {
+				// now and then the first reader of a table is never closed (abandoned by its owner): the table that is written to the same
+				// directory two cases later must not inherit anything from it
+				continue
+			}
 			rd.Close()
 			rd.Close() // closed twice (defer + explicit): whatever the first Close handed back must not be handed back again
 		}
